@@ -38,7 +38,8 @@ void abtv_ev(const char *fmt, ...) __attribute__((format(printf, 1, 2)));
 /* virtual clock (serial mode) */
 int64_t abtv_now_ns(void);
 void abtv_clock_advance_ns(int64_t ns);
-void abtv_clock_tick_ns(int64_t ns);   /* increment applied by each clock_gettime */
+void abtv_clock_tick_ns(int64_t ns);
+void abtv_poll_until(int64_t abs_ns);  /* the caller polls the clock until this time: virtual time does not leap past it */   /* increment applied by each clock_gettime */
 
 /* observations that must be one snapshot: no hand-over at hooked operations
  * between begin and end (serialized mode; the calls in between must not block) */
